@@ -56,7 +56,7 @@ CHECKS = {
         "exploration",
         "Hypothesis boundary-biased body sizes/contents/readers; byte-exact stream oracle + backend differential, "
         "in-memory TLS and live loopback sockets",
-        "Generated bodies (0 B .. 4 MiB, dense around 2^14/2^16/socket-buffer boundaries; pattern, pseudo-random and "
+        "Generated bodies (0 B .. 4 MiB, dense around 2^14/2^16/socket-buffer boundaries, plus 10 MiB +-1 .. 33 MiB enumerated; pattern, pseudo-random and "
         "multi-byte text; str and bytes) are fetched through both real TLS stacks in memory (incl. a slow reader with "
         "TCP backlog) and over live sockets; the received stream must equal header+body exactly, end cleanly, and be "
         "identical on both backends.",
@@ -92,7 +92,7 @@ CHECKS = {
         "exhaustive construction-path x protocol-version matrix with control handshakes (also re-run in a child under a "
         "legacy-compatibility OPENSSL_CONF) + Hypothesis plaintext payloads against both stacks and captured "
         "start_server assemblies in memory",
-        "All 23 server context construction paths (every listener start_server opens) and the client contexts are offered TLS 1.0-1.3 by a permissive "
+        "All 30 server context construction paths (every listener start_server opens), the client contexts and the command-line client (child process, live peers) are offered TLS 1.0-1.3 by a permissive "
         "peer (security level 0): below 1.2 no handshake completes, no handler runs and no Gemini-shaped bytes come "
         "back, while a control handshake proves the old version is negotiable; 1.2/1.3 are served. Plaintext never "
         "reaches a handler.",
